@@ -176,7 +176,7 @@ func c13Judge(c *fw.Ctx, env types.EnvType, name string, exprs []*canon.Node, mo
 var c13Arity = map[string][]int{
 	"list": {0, 1, 2}, "vector": {0, 1, 2}, "hash-map": {0, 2, 3}, "hash-set": {0, 1, 2}, "set": {1}, "range": {2}, "vec": {1}, "cons": {2}, "concat": {0, 1, 2, 3},
 	"nth": {2}, "first": {1}, "rest": {1}, "count": {1}, "empty?": {1}, "conj": {1, 2, 3}, "seq": {1}, "map": {2}, "apply": {2, 3}, "take": {1, 2}, "take-last": {2},
-	"drop": {2}, "drop-last": {1, 2}, "subvec": {2, 3}, "assoc": {1, 2, 3}, "dissoc": {1, 2, 3}, "get": {2}, "contains?": {2}, "keys": {1}, "vals": {1}, "merge": {2},
+	"drop": {2}, "drop-last": {1, 2}, "subvec": {2, 3}, "assoc": {1, 2, 3, 4}, "dissoc": {1, 2, 3}, "get": {2}, "contains?": {2}, "keys": {1}, "vals": {1}, "merge": {2},
 	"rename-keys": {2}, "get-in": {2}, "assoc-in": {3}, "update": {3}, "update-in": {3},
 	"nil?": {1}, "true?": {1}, "false?": {1}, "symbol?": {1}, "keyword?": {1}, "string?": {1}, "number?": {1}, "list?": {1}, "vector?": {1}, "map?": {1}, "set?": {1}, "sequential?": {1},
 }
@@ -245,6 +245,23 @@ func runC13(c *fw.Ctx) {
 				for _, a := range candidates(0) {
 					for _, b := range candidates(1) {
 						tuples = append(tuples, []c13Item{a, b})
+					}
+				}
+			case 4:
+				// (builtin coll k v k): an incomplete trailing pair
+				rg := c.RandGlobal("t4-" + name)
+				var keys, few []c13Item
+				for _, it := range pool {
+					if clsKey(it.class) {
+						keys = append(keys, it)
+					}
+					if clsFew(it.class) {
+						few = append(few, it)
+					}
+				}
+				for _, a := range pool {
+					for _, k1 := range keys {
+						tuples = append(tuples, []c13Item{a, k1, gen.Pick(rg, few), gen.Pick(rg, keys)})
 					}
 				}
 			case 3:
